@@ -76,29 +76,51 @@ def base_type(A, gx, types, decl_coord, is_func):
     return A.IdentifierType([n for t in types for n in t.names], ANY_INSIDE)
 
 
+def _copy_chain(A, n):
+    import copy as _copy
+
+    c = _copy.copy(n)
+    if getattr(c, "quals", None) is not None:
+        c.quals = list(c.quals)
+    if not isinstance(n, A.TypeDecl) and getattr(n, "type", None) is not None:
+        c.type = _copy_chain(A, n.type)
+    return c
+
+
 def atomic_normalise(A, decl):
     """_Atomic(T) means the same as the _Atomic-qualified T: remove the Typename wrapper(s) in the chain and put
     '_Atomic' into the quals of that level (and of the declaration when it is the top level)."""
     changed = True
+    fixed_any = False
     while changed:
         changed = False
         parent, node = decl, decl.type
         grand = None
         while node is not None and hasattr(node, "type"):
             if isinstance(node, A.Typename) and "_Atomic" in node.quals:
-                inner = node.type
+                # the type name inside _Atomic(...) is part of the SPECIFIERS, which apply to every declarator separately:
+                # each declared entity gets its own nodes for the derivations it contributes (C03), the base type is shared
+                inner = _copy_chain(A, node.type)
                 # array and function derivations carry no qualifiers: the qualifier goes to the element / return type (6.7.3p9)
                 q = inner
                 while not hasattr(q, "quals") and hasattr(q, "type"):
                     q = q.type
-                if hasattr(q, "quals") and "_Atomic" not in q.quals:
-                    q.quals.append("_Atomic")
+                if hasattr(q, "quals"):
+                    if q.quals is None:
+                        q.quals = []
+                    # qualifiers written next to the specifier (`const _Atomic(int) x`, `_Atomic(int *) const p`) qualify the same
+                    # level as _Atomic: the type specified by the specifiers as a whole (6.7.3)
+                    for ql in list(getattr(parent, "quals", None) or []) + ["_Atomic"]:
+                        if ql not in q.quals:
+                            q.quals.append(ql)
                 if getattr(inner, "coord", None) is None:
                     # the node that now carries the declared name stands at the token that spells the name (C11): that is
                     # where the dropped wrapper TypeDecl stood
-                    inner.coord = parent.coord if isinstance(parent, A.TypeDecl) and parent.coord is not None else ANY_INSIDE
+                    # (an abstract declarator has no name token: no coordinate is fine there)
+                    inner.coord = parent.coord if isinstance(parent, A.TypeDecl) and parent.coord is not None else ANY_INSIDE_OR_NONE
                 grand.type = inner
                 changed = True
+                fixed_any = True
                 break
             grand, parent, node = parent, node, node.type
     td = decl
@@ -106,7 +128,11 @@ def atomic_normalise(A, decl):
         if not hasattr(td, "type"):
             return decl
         td = td.type
-    if "_Atomic" in td.quals and "_Atomic" not in decl.quals:
+    if fixed_any:
+        # the qualifiers recorded on the declaration are those of its base type (as for `const int *p`); a qualifier that
+        # went to a pointer level (`const _Atomic(int *) p` = `int * const _Atomic p`) is not among them
+        decl.quals = list(td.quals or [])
+    elif "_Atomic" in (td.quals or []) and "_Atomic" not in decl.quals:
         decl.quals.append("_Atomic")
     if td.declname is None:
         td.declname = decl.name
@@ -141,7 +167,8 @@ def mk_typename(A, gx, spec, decl):
     td, mods = decompose(A, d)
     td.quals = list(spec["qual"])
     td.type = base_type(A, gx, spec["type"], None, False)
-    return A.Typename(None, list(spec["qual"]), None, d, ANY_INSIDE if (decl is not None or spec["type"]) else None)
+    # _Atomic(T) means the _Atomic-qualified T in a type name exactly as in a declaration
+    return atomic_normalise(A, A.Typename(None, list(spec["qual"]), None, d, ANY_INSIDE if (decl is not None or spec["type"]) else None))
 
 
 def make_declaration_grammar(g: Grammar, gx):
